@@ -22,6 +22,47 @@ def recase(rng, s):
     return "".join(c.lower() if rng.random() < 0.5 else c.upper() for c in s)
 
 
+def _parse_solver_out(out, nvars):
+    """reply of the external program as the driver's reply line (bits over the declared variables)"""
+    txt = out.decode(errors="replace")
+    status = None
+    bits = ["?"] * nvars
+    for l in txt.split("\n"):
+        if l == "s SATISFIABLE":
+            status = True
+        elif l == "s UNSATISFIABLE":
+            status = False
+        elif l.startswith("v "):
+            for t in l.split()[1:]:
+                try:
+                    k = int(t)
+                except ValueError:
+                    continue
+                if k != 0 and abs(k) <= nvars:
+                    bits[abs(k) - 1] = "+" if k > 0 else "-"
+    if status is True:
+        return "S 0 s " + "".join(bits) if nvars else "S 0 s"
+    if status is False:
+        return "S 0 u"
+    return "S 0 k"
+
+
+def dispatch_frameworks(rng, tier):
+    """frameworks on which the semantics (and hence a wrongly dispatched solver or encoder) differ"""
+    fws = [
+        (3, [(0, 1), (1, 2), (2, 2)]),                                   # stage != semi-stable, no stable extension
+        (7, [(0, 4), (4, 1), (1, 2), (2, 3), (3, 1), (5, 6), (6, 5)]),   # odd cycle fed by a chain + a 2-cycle
+        (5, [(0, 1), (1, 0), (1, 2), (2, 3), (3, 4), (4, 2)]),           # preferred != complete != grounded
+        (4, [(0, 1), (1, 0), (0, 2), (1, 2), (2, 3)]),                   # floating acceptance
+        gen.funnel(5, 2),                                                 # above the hybrid threshold
+    ]
+    for _ in range(3 if tier == "quick" else 40):
+        n, atts = gen.random_framework(rng, 8)
+        if n:
+            fws.append((n, atts))
+    return fws
+
+
 class C05(Property):
     id = "C05"
     families = []
@@ -29,7 +70,11 @@ class C05(Property):
     rule = ("generated instance files (both formats, layout variation as in C13) x the 21 problems (random case) x every argument x CLI options (reader, encoding, certificate flag, logging level off) "
             "on `crustabri solve` and on the ICCMA'23 wrapper; stdout must be exactly the status line and/or one witness line, exit status 0, and the answer is judged by the Lean oracle (witness validated "
             "against the semantics, not against a particular extension); malformed invocations (unreadable or ill-formed file, unknown problem, missing -a, unknown argument, unknown reader/encoding/level, "
-            "duplicate and unknown options) must exit non-zero without any answer line; `--problems` / `problems` must list exactly the 21 problems; non-trivial = invocation on a framework with an attack")
+            "duplicate and unknown options) must exit non-zero without any answer line; `--problems` / `problems` must list exactly the 21 problems; "
+            "dispatch correspondence: on frameworks that separate the semantics (no stable extension, stage != semi-stable, preferred != complete, above the hybrid threshold, random ones) every problem x "
+            "every --encoding value (and `SE-PR` literal vs recased) is run with --external-sat-solver pointing to a recording script: the DIMACS text of every SAT call must equal byte for byte the text "
+            "rendered by the composed Lean model (readProblem, dispatchSolver, dispatchEncoder, entryProg, Buffered.dimacs) replayed on the recorded replies, the printed answer must equal the model's, "
+            "and is judged by the oracle as well; non-trivial = invocation on a framework with an attack")
     assumptions = ["clap 2.34 and process exit plumbing are trusted; help requests exit 0 by design and are not errors",
                    "log lines (prefix `![`) are not answers; they appear on stdout only when logging is not off or on usage errors"]
 
@@ -249,8 +294,131 @@ class C05(Property):
                "cli_valid_invocations": len([j for j in jobs if j[0] == "ok"]), "cli_answers_judged": len(judged),
                "cli_error_invocations": len([j for j in jobs if j[0] == "err"]),
                "samples": [" ".join(j[1]) for j in jobs[:2]] + [" ".join(j[1]) for j in jobs if j[0] == "err"][:2]}
+        f2, c2 = self.dispatch_trace(ctx, rng)
+        findings += f2
+        cov.update(c2)
         self._cov = cov
         return findings, cov
+
+    # ---- dispatch correspondence: the CLI run against a recording external solver = the composed Lean model ----
+    def dispatch_trace(self, ctx, rng):
+        tier, runner = ctx["tier"], ctx["runner"]
+        crust = os.path.join(common.REPO_TARGET, "release", "crustabri")
+        fake = os.path.join(common.VERIF, "tools", "fakesolver.py")
+        d = runner.dir
+        jobs = []
+        fws = dispatch_frameworks(rng, tier)
+        for fi, (n, atts) in enumerate(fws):
+            path = os.path.join(d, "disp_%d.af" % fi)
+            open(path, "w").write("p af %d\n" % n + "".join("%d %d\n" % (a + 1, b + 1) for a, b in atts))
+            for prob in PROBLEMS:
+                t, sem = prob.split("-")
+                shown_variants = [prob]
+                if prob == "SE-PR" or rng.random() < 0.15:
+                    shown_variants.append(recase(rng, prob) if prob != "SE-PR" else "se-pr")
+                for shown in shown_variants:
+                    for enc in [None, "aux_var", "exp", "hybrid"]:
+                        if tier == "quick" and fi >= 5 and rng.random() < 0.5:
+                            continue
+                        arg = rng.randrange(n) if t != "SE" else None
+                        cert = rng.random() < 0.5
+                        k = len(jobs)
+                        cap = os.path.join(d, "cap_%d" % k)
+                        os.makedirs(cap, exist_ok=True)
+                        cmd = [crust, "solve", "-f", path, "-p", shown, "--logging-level", "off", "--external-sat-solver", fake]
+                        if arg is not None:
+                            cmd += ["-a", str(arg + 1)]
+                        if cert:
+                            cmd += ["-c"]
+                        if enc:
+                            cmd += ["--encoding", enc]
+                        jobs.append(dict(cmd=cmd, cap=cap, n=n, atts=atts, shown=shown, enc=enc, cert=cert, arg=arg, t=t, sem=sem))
+
+        def run(job):
+            env = dict(os.environ, FAKE_STATE=os.path.join(job["cap"], "state"), FAKE_CAPTURE=job["cap"])
+            try:
+                pr = subprocess.run(job["cmd"], env=env, stdout=subprocess.PIPE, stderr=subprocess.PIPE, timeout=120)
+                return (pr.returncode, pr.stdout.decode(errors="replace"), pr.stderr.decode(errors="replace"))
+            except subprocess.TimeoutExpired:
+                return (None, "", "timeout")
+        with ThreadPoolExecutor(max_workers=16) as ex:
+            results = list(ex.map(run, jobs))
+        blocks = []
+        expected = {}
+        findings = []
+        ncalls = 0
+        for k, (job, (rc, out, err)) in enumerate(zip(jobs, results)):
+            shown = " ".join(job["cmd"])
+            if rc != 0:
+                findings.append(Finding("input", None, "exit status %s on a valid invocation with an external SAT solver: %s | %s" % (rc, shown[-160:], err[-120:]),
+                                        "cli/%s-%s · non-zero exit with external solver" % (job["t"], job["sem"]), {"cmd": shown}))
+                continue
+            insts, replies = [], []
+            i = 1
+            while os.path.exists(os.path.join(job["cap"], "in_%d" % i)):
+                data = open(os.path.join(job["cap"], "in_%d" % i), "rb").read()
+                insts.append(data.decode(errors="replace").replace("\n", "|"))
+                head = data.split(b"\n", 1)[0].split()
+                nv = int(head[2]) if len(head) >= 4 and head[0] == b"p" else 0
+                op = os.path.join(job["cap"], "out_%d" % i)
+                replies.append(_parse_solver_out(open(op, "rb").read() if os.path.exists(op) else b"", nv))
+                i += 1
+            ncalls += len(insts)
+            lines = out.split("\n")
+            if lines and lines[-1] == "":
+                lines = lines[:-1]
+            # the printed answer in the driver's notation (ICCMA labels are id + 1)
+            t = job["t"]
+
+            def dense(ws):
+                return ",".join(str(int(x) - 1) for x in ws) if ws else "[]"
+            try:
+                if t == "SE":
+                    ans = "ans SE ext=NONE members=1" if lines == ["NO"] else "ans SE ext=%s members=1" % dense(lines[0].split(" ")[1:])
+                else:
+                    w = lines[1].split(" ")[1:] if len(lines) == 2 else None
+                    cs = ("NONE" if job["cert"] else "-") if w is None else dense(w)
+                    ans = "ans ACC status=%s cert=%s members=1" % (lines[0], cs)
+            except (IndexError, ValueError):
+                ans = "unparsable stdout %r" % out[:80]
+            expected[k] = (insts, ans)
+            fw = "i:%d:%s" % (job["n"], ",".join("%d>%d" % (a + 1, b + 1) for a, b in job["atts"]))
+            if not ans.startswith("unparsable"):
+                jsem = "CO" if (t == "DC" and job["sem"] == "PR") else job["sem"]
+                blocks.append("case j%d solve\nfw n=%d labels=- ids=- atts=%s\nquery sem=%s enc=- task=%s cert=%d args=%s\n%s\nunchanged 1\nend\n" % (
+                    k, job["n"], ",".join("%d>%d" % pq for pq in job["atts"]), jsem, t, 1 if (job["cert"] and t != "SE") else 0,
+                    "-" if job["arg"] is None else str(job["arg"]), ans))
+            blocks.append("case d%d cli\nin fw=%s problem=%s enc=%s cert=%d arg=%s\n%s%send\n" % (
+                k, fw, job["shown"], job["enc"] or "-", 1 if job["cert"] else 0, "-" if job["arg"] is None else str(job["arg"]),
+                "\n".join(replies), "\n" if replies else ""))
+        _, model = runner.driver("".join(blocks))
+        combos = set()
+        for k, (insts, ans) in expected.items():
+            job = jobs[k]
+            shown = " ".join(job["cmd"])
+            m = model.get("d%d" % k, [])
+            minst = [l[5:] for l in m if l.startswith("inst ")]
+            mans = [l for l in m if l.startswith("ans ") or l.startswith("panic") or l.startswith("T-") or l.startswith("rejected")]
+            disp = [l for l in m if l.startswith("dispatch ")]
+            combos.add((job["t"], job["sem"], job["enc"], job["shown"] == "SE-PR"))
+            entry = "%s-%s enc=%s" % (job["t"], job["sem"], job["enc"] or "default")
+            for v in model.get("j%d" % k, []):
+                if v.startswith("verdict BAD"):
+                    findings.append(Finding("input", None, "wrong answer printed for %s: %s | %s" % (entry, v[12:], shown[-160:]),
+                                            "cli/%s-%s · %s" % (job["t"], job["sem"], v[12:]),
+                                            {"cmd": shown, "stdout": results[k][1][:200], "file": open(job["cmd"][job["cmd"].index("-f") + 1]).read()}))
+            if minst != insts:
+                j = next((x for x in range(min(len(minst), len(insts))) if minst[x] != insts[x]), min(len(minst), len(insts)))
+                findings.append(Finding("model", None,
+                                        "the SAT instances the CLI hands to the external solver differ from those of the composed Lean model (%s) at call %d of %d/%d: impl %r model %r | %s"
+                                        % (disp[0] if disp else "?", j + 1, len(insts), len(minst), (insts[j] if j < len(insts) else "-")[:100], (minst[j] if j < len(minst) else "-")[:100], shown[-150:]),
+                                        "cli/%s · dispatch or encoding differs from the model" % entry,
+                                        {"cmd": shown, "file": open(job["cmd"][job["cmd"].index("-f") + 1]).read(), "theorem": "correspondence cli family (Driver/Cli.lean: readProblem, dispatchSolver, dispatchEncoder, entryProg)"}))
+            elif mans[:1] != [ans]:
+                findings.append(Finding("model", None, "the answer printed by the CLI differs from the answer of the composed Lean model on the same SAT replies: impl %r model %r | %s" % (ans, mans[:1], shown[-150:]),
+                                        "cli/%s · printed answer differs from the model" % entry, {"cmd": shown, "stdout": out[:200]}))
+        return findings, {"cli_dispatch_runs": len(jobs), "cli_dispatch_sat_calls_compared": ncalls, "cli_dispatch_combinations": len(combos),
+                          "cli_dispatch_frameworks": len(fws)}
 
     def stats(self, cases, impl, model):
         return getattr(self, "_cov", {})
